@@ -9,6 +9,30 @@ BASELINE_OFF = ("cd /repo && env -u PRODUCTMD_VERIF /venv/bin/python -m pytest -
                 "--timeout=900 --continue-on-collection-errors")
 
 
+TECHNIQUE = {
+    "C01": "runtime monitoring: description->expectation oracle over generated composeinfo write/read executions (independent JSON reader, public-attribute observation)",
+    "C02": "runtime monitoring: description->expectation oracle over generated image-manifest write/read executions, per-cell conservation",
+    "C03": "runtime monitoring: add histories stepped against an executable reference model, then write/read/continue",
+    "C04": "runtime monitoring: description->expectation oracle with an independent INI line reader over hostile-but-representable treeinfo/discinfo content",
+    "C05": "runtime monitoring: down-converted documents of every older version + shipped fixtures, facts/idempotence monitors on the upgrade cycle",
+    "C06": "runtime monitoring: single-field object corruption at arbitrary positions from a documented invalid table; validator-level raise counters (wrapped from outside)",
+    "C07": "runtime monitoring: single document corruption (value / foreign type / mangled version / missing key) with the 'never returned invalid' oracle",
+    "C08": "runtime monitoring: digests of dumps across construction-order permutations, interpreter processes and PYTHONHASHSEED values; canonical-form readers",
+    "C09": "runtime monitoring: history + executable sequential model + invariant walk after every add, four header situations, colliding documents",
+    "C10": "runtime monitoring: architecture-class add sweeps with before/after snapshots; conversion conservation oracle on legacy documents with src entries",
+    "C11": "runtime monitoring: history + reference forest model + global invariant walk after every add; exhaustive query matrix; per-case stall guard",
+    "C12": "runtime monitoring: add histories with valid/invalid/doubly-invalid arguments compared step by step with an executable model (state after refusals included)",
+    "C13": "runtime monitoring: by-construction oracle over generated NEVRA strings (millions of cases), fixed-point and Rpms.add key monitors",
+    "C14": "runtime monitoring: exhaustive enumeration of all strings up to length L against loop-based reference predicates; generated create/parse round trips",
+    "C15": "runtime monitoring: by-construction oracle over created ids, exhaustive suffix table, legacy documents",
+    "C16": "runtime monitoring: independent digests (hashlib one-shot + coreutils) on chunk-boundary file sizes; per-line reader oracle; add_checksum history invariant",
+    "C17": "runtime monitoring: relations inside one written text read by an independent INI reader, against the description, plus a legacy-reader cross-check",
+    "C18": "fault enumeration at runtime: validator failpoints at every activation of every sampled dump, byte/existence comparison, audit-hook and strace logs",
+    "C19": "runtime monitoring with dynamic binary instrumentation: callgrind instruction counts of single calls on pump families derived from harvested patterns; growth-degree rule",
+    "C20": "runtime monitoring: enumerated compose-directory configurations with identifiable content, allowed-root/accessor oracles, audit-hook caching monitor",
+}
+
+
 def main():
     sys.path.insert(0, HERE)
     props = [json.loads(l) for l in open(os.path.join(HERE, "properties.jsonl"))]
@@ -29,11 +53,13 @@ def main():
             "replay_cmd_template": "bin/check %s --replay {path}" % pid,
             "engine": "rv",
             "level_claimed": {"category": getattr(mod, "LEVEL", "exploration"),
-                              "text": getattr(mod, "LEVEL_TEXT", mod.__doc__.strip().split("\n\n", 1)[-1].strip()),
+                              "text": ("Held-on-what-was-explored, not a proof: the verdict covers the executions this run produced "
+                                       "(counts, input classes, monitors and reached functions are in the evidence file); a starved "
+                                       "monitor makes the run inconclusive (exit 2), never held.  " +
+                                       " ".join(getattr(mod, "LEVEL_TEXT", mod.__doc__.strip().split("\n\n", 1)[-1].strip()).split())),
                               "design_ref": "DESIGN.md section 4, %s" % pid},
             "level_note": getattr(mod, "LEVEL_NOTE", "; ".join(getattr(mod, "ASSUMPTIONS", []))),
-            "technique": getattr(mod, "TECHNIQUE", "runtime monitoring: generated workloads against the real code, "
-                                 "independent oracle over observed executions"),
+            "technique": TECHNIQUE.get(pid, "runtime monitoring: generated workloads against the real code, independent oracle"),
         })
     man = {
         "version": 1,
